@@ -37,7 +37,7 @@ func die(code int, f string, a ...interface{}) {
 }
 
 func main() {
-	var instr, inpkg, rewrites, out string
+	var instr, inpkg, rewrites, out, nogo string
 	flag.StringVar(&repo, "repo", "/repo", "")
 	flag.StringVar(&verif, "verif", "/verif", "")
 	flag.StringVar(&scratch, "scratch", "", "")
@@ -45,11 +45,13 @@ func main() {
 	flag.StringVar(&inpkg, "inpkg", "", "")
 	flag.StringVar(&rewrites, "rewrites", "", "")
 	flag.StringVar(&out, "out", "", "")
+	flag.StringVar(&nogo, "nogo", "", "")
 	flag.Parse()
 	if scratch == "" || out == "" {
 		die(2, "need -scratch and -out")
 	}
 	repo, _ = filepath.Abs(repo)
+	noGo = strings.Fields(nogo)
 
 	// 1. harness packages
 	hroot := filepath.Join(verif, "harness")
@@ -489,7 +491,20 @@ func (in *inst) clauses(b *ast.BlockStmt) {
 
 // goStmt rewrites `go f(a, b)` to `{ f0 := f; a0 := a; b0 := b; vrt.Go(loc, func(){ f0(a0, b0) }) }`
 // (operands evaluated at the go statement, as the language requires).
+// noGo lists substrings of go-statement call expressions that stay native goroutines.
+var noGo []string
+
 func (in *inst) goStmt(g *ast.GoStmt) []ast.Stmt {
+	if len(noGo) > 0 {
+		var b bytes.Buffer
+		format.Node(&b, in.fset, g.Call)
+		for _, pat := range noGo {
+			if strings.Contains(b.String(), pat) {
+				in.funcLits(g.Call)
+				return []ast.Stmt{g}
+			}
+		}
+	}
 	loc := in.loc(g)
 	call := g.Call
 	var pre []ast.Stmt
